@@ -135,7 +135,10 @@ def gen(root, out, per_function=12):
     evdir = tempfile.mkdtemp(prefix="sa_ev_")
     fmap = function_map(root, evdir)
     mutants = []
+    prefix = os.environ.get('MUT_PREFIX', '')
     for fq, props in sorted(fmap.items()):
+        if not fq.startswith(prefix):
+            continue
         rel, qual = module_of(root, fq)
         if rel is None:
             continue
@@ -204,7 +207,7 @@ TESTS = {
 
 
 def run_tests(root, m):
-    tmp = tempfile.mkdtemp(prefix="sa_mt_", dir="/root/scratch")
+    tmp = tempfile.mkdtemp(prefix="sa_mt_")
     try:
         dst = pathlib.Path(tmp) / "repo"
         shutil.copytree(root, dst, ignore=shutil.ignore_patterns("__pycache__", "*.nbi", "*.nbc", ".git"))
